@@ -18,10 +18,10 @@ pub static PROP: Prop = Prop {
            datagram reached Server::handle; distinct = (generator class, layout fingerprint, outcome, registered reason, state class).",
     assumptions: &[
         "synchronisation states are physically meaningful: variances form a positive semi-definite pair, root delay >= 0; 'stale' = up to 2^31 s since the last clock update with wander <= 1e-8, 'race' = reception timestamp up to 10 s before the last update (kernel timestamp taken before a clock update/backward step)",
-        "a panic is attributed to the state class in the violation signature (handle/<class>) so that state-dependent and datagram-dependent crashes are distinguishable",
+        "the violation signature names the panic site and build profile; the state class and the datagram are in the detail",
     ],
     profiles: Profiles::Both,
-    cases: |t| t.pick(9_000, 120_000),
+    cases: |t| t.pick(60_000, 1_500_000),
     budget_s: |t| t.pick(40, 400),
     run,
     min_nontrivial: 500,
@@ -44,7 +44,7 @@ fn run(c: &mut Case) {
         Err(e) => return c.harness_error(e),
     };
     let mut spy = sim::Spy::default();
-    let label = format!("handle/{}", w.info.class);
+    let label = "handle".to_string();
     for k in 0..24 {
         let req = match sim::gen_any(&mut c.rng, &w.keys) {
             Ok(r) => r,
